@@ -23,6 +23,11 @@ CLAIMED = {
    note="Trusted: Coq kernel + vm_compute, table extractor, correspondence driver; observers modelled as ids; temperature callbacks mapped back to stored words by the harness (float layer in C14); exceptions raised by observers are outside the model. Closed under the global context.",
    technique="Rocq proof by induction over item lists/histories (counting lemma) + differential history correspondence",
    design="3/C03"),
+ "C04": dict(
+   text="Machine-checked proof over a hand-written executable model of the wire format (24 message kinds, hello, PACKT framing, the can_handle matrix of the 14 standard handler classes): decode(encode m) = m for all in-range field values of every kind (arbitrary 0..255-byte STATV payloads, any STATP record list, any reminder list with signed days, set-value 1/2 bytes), each built message accepted by exactly its verb's handler class, framing round-trips for arbitrary payloads (identifiers without '<') and replies swap the identifiers, hello round-trips for names containing '|'; FILES reply: complete finite sweep over every shipped platform name x versions 0..255. Correspondence: every kind built through the real constructors (boundary, random, out-of-range), real handle()/can_handle() of all classes, malformed datagrams, adversarial framing/hello inputs vs the model (vm_compute).",
+   note="Trusted: Coq kernel + vm_compute; correspondence driver; Python re is validated differentially (framing model = first-occurrence splitting, argued equivalent to the lazy/greedy regex in DESIGN); struct pack/unpack and int() as modelled. Known finding K4 (SETWC, WCREQ claimed by no handler) appears as owner = None with c04_every_message_claimed_refuted. Two genuine defects were repaired (fix commits 6805286, eb7b054). Closed under the global context.",
+   technique="Rocq proof (list/byte-string lemmas, lia for div/mod, finite vm_compute sweeps) + differential correspondence of codecs",
+   design="3/C04"),
 }
 
 REASON_PENDING = "check not built yet in this round (model and correspondence under construction; see DESIGN.md section 8)"
